@@ -52,6 +52,9 @@ struct SchedulerBlockInfo {
     batch_mode: BatchMode,
     /// Whether this block has `NextStrategy::OnlyOne`.
     is_only_one_strategy: bool,
+    /// The replication requirement the replicas were derived from (verification hook).
+    #[cfg(feature = "verif")]
+    replication: Replication,
 }
 
 /// The `Scheduler` is the entity that keeps track of all the blocks of the job graph and when the
@@ -205,7 +208,8 @@ impl Scheduler {
                 .map(|n| n.iter().map(|(b, _, fragile)| serde_json::json!([b, fragile])).collect())
                 .unwrap_or_default();
             blocks.push(serde_json::json!({"id": id, "repr": info.repr, "replicas": replicas,
-                "only_one": info.is_only_one_strategy, "next": next}));
+                "only_one": info.is_only_one_strategy, "next": next,
+                "replication": format!("{:?}", info.replication)}));
         }
         let mut dump = self.network.verif_dump();
         dump["blocks"] = serde_json::Value::Array(blocks);
@@ -398,6 +402,8 @@ impl Scheduler {
             global_ids: global_ids.into_iter().collect(),
             batch_mode: block.batch_mode,
             is_only_one_strategy: block.is_only_one_strategy,
+            #[cfg(feature = "verif")]
+            replication,
         }
     }
 
@@ -468,6 +474,8 @@ impl Scheduler {
             global_ids,
             batch_mode: block.batch_mode,
             is_only_one_strategy: block.is_only_one_strategy,
+            #[cfg(feature = "verif")]
+            replication,
         }
     }
 }
